@@ -968,7 +968,11 @@ pub fn c10_stream(p: &Params) {
                 };
                 sp();
                 if let Some(w) = w {
-                    w.wake();
+                    if k % 2 == 0 {
+                        w.wake_by_ref();
+                    } else {
+                        w.wake();
+                    }
                 }
                 log(Ev::OpEnd { th: i, op: "push", arg: v, ok: true });
                 sp();
